@@ -21,6 +21,8 @@ READ_PRIMS = {
     'get_u8': 'u8', 'get_u16': 'u16', 'get_u32': 'u32', 'get_u64': 'u64', 'get_i32': 'i32', 'get_f64': 'f64',
     'get_u16_le': 'u16le', 'get_u32_le': 'u32le',
     'be_u8': 'u8', 'be_u16': 'u16', 'be_u32': 'u32', 'be_u64': 'u64', 'be_i32': 'i32', 'be_i64': 'i64', 'be_f64': 'f64',
+    'be_i8': 'i8', 'be_i16': 'i16', 'be_u24': 'u24', 'be_u128': 'u128', 'be_f32': 'f32', 'le_u8': 'u8', 'le_i8': 'i8', 'le_i16': 'i16le', 'le_i32': 'i32le', 'le_f64': 'f64le',
+    'i8': 'i8', 'u8': 'u8',
     'le_u16': 'u16le', 'le_u32': 'u32le', 'le_u64': 'u64le',
     'read_u8': 'u8', 'read_u16': 'u16', 'read_u32': 'u32', 'read_u64': 'u64',
     'read_u16_le': 'u16le', 'read_u32_le': 'u32le',
